@@ -118,17 +118,26 @@ def real_acceptor(rq, ac, roles, unrestricted=False):
     return canon_acc_real(res, items)
 
 
-def real_acse_mode(rq, ac, roles, unrestricted):
+def real_acse_mode(rq, ac, roles, unrestricted, via_handler=False):
     """The function `ACSE._negotiate_as_acceptor` selects under `_config.UNRESTRICTED_STORAGE_SERVICE`,
-    observed by running that method on a real acceptor Association whose `send_accept` is a stub."""
-    from pynetdicom import AE, _config
+    observed by running that method on a real acceptor Association whose `send_accept` is a stub.
+    via_handler: the supported contexts are put in place by a negotiation-time handler (EVT_USER_ID, e.g. contexts
+    per authenticated user) - the acceptor starts with none; what counts is what is supported when the contexts are
+    negotiated."""
+    from pynetdicom import AE, _config, evt
     from pynetdicom.association import Association
-    from pynetdicom.pdu_primitives import A_ASSOCIATE, SCP_SCU_RoleSelectionNegotiation
+    from pynetdicom.pdu_primitives import A_ASSOCIATE, SCP_SCU_RoleSelectionNegotiation, UserIdentityNegotiation
 
     ae = AE()
     assoc = Association(ae, "acceptor")
     assoc.acceptor.ae_title = "ACC"
-    assoc.acceptor.supported_contexts = [mk_cx(c) for c in ac]
+    assoc.acceptor.supported_contexts = [] if via_handler else [mk_cx(c) for c in ac]
+    if via_handler:
+        def on_user_id(event):
+            event.assoc.acceptor.supported_contexts = [mk_cx(c) for c in ac]
+            return True, None
+
+        assoc.bind(evt.EVT_USER_ID, on_user_id)
     prim = A_ASSOCIATE()
     prim.calling_ae_title = "REQ"
     prim.called_ae_title = "ACC"
@@ -139,6 +148,11 @@ def real_acse_mode(rq, ac, roles, unrestricted):
         r.sop_class_uid = ABS[a]
         r.scu_role, r.scp_role = u, p
         items.append(r)
+    if via_handler:
+        ui = UserIdentityNegotiation()
+        ui.user_identity_type = 1
+        ui.primary_field = b"user"
+        items.append(ui)
     prim.user_information = items
     assoc.requestor.primitive = prim
     assoc.acse.send_accept = lambda: None
